@@ -135,7 +135,9 @@ class HashTable:
         return f"{self.__class__.__name__}({self._keys.ravel().tolist()}, {v})"
 
     def _get_mod(self, keys):
-        return self.dtype(2 * keys.size - 1)  # TODO: make prime
+        # a plain int, like an explicit `mod`: a numpy scalar of the key dtype makes `key % mod` refuse Python-int
+        # queries the key dtype cannot hold and turns int64 queries on uint64 keys into float hashes
+        return int(2 * keys.size - 1)  # TODO: make prime
 
     def _get_hash(self, keys):
         return keys % self._mod
